@@ -126,6 +126,15 @@ func oneTree(o *opts, r *rng, s *summary, i int, sc treeScenario, distinct map[s
 		}
 	default:
 		art = genTree(r, 0, to, &pool, s)
+		if i%34 == 3 {
+			// contents of exactly the hashing buffer's size, two different ones, next to an empty file:
+			// three different objects
+			art.set("buf_a.bin", nFile(r.bytes(65536)))
+			art.set("buf_b.bin", nFile(r.bytes(65536)))
+			art.set("buf_empty.bin", nFile(nil))
+			art.sortEnts()
+			s.count("size:64KiB")
+		}
 		if sc.kind == "norec" {
 			// several sub-directories next to the files, in whatever order the file system lists them
 			for _, n := range []string{"Zsub", "asub", "msub"} {
